@@ -38,7 +38,7 @@ ASSUMPTIONS = ["no repository / include URLs (they would need the network)",
                "uncertainty is compared by text (the XML form is text)"]
 REQUIRED_MONITORS = ["loadable", "content", "logged", "source", "file"]
 
-WORDS = ["alpha", "beta", "x", "rec", "stim", "n1", "v 2", "ä"]
+WORDS = ["alpha", "beta", "x", "rec", "stim", "n1", "v 2", "ä", u"cafe\u0301", u"\u2126", u"\u212bm"]
 DTYPES = ["string", "int", "float", "text", "boolean", None, None]
 
 
@@ -266,6 +266,15 @@ def run_case(case, ctx, sdir):
             rec.violation("loadable/strict-reader-rejects-result:%s" % (hazards[0] if hazards else type(exc).__name__),
                           "%s: %r" % (fmt, str(exc)[:200]), case)
             return
+        # the same reader loads the result a second time (e.g. the StringIO and the file route of one source, which carry
+        # the same ids): a loadable result stays loadable and gives the same document
+        try:
+            again = rd.from_string(out)
+            d2 = model.diff(model.model_of(loaded), model.model_of(again))
+            if d2:
+                rec.violation("loadable/second-load-by-the-same-reader-differs:%s" % d2[0]["field"], fmt, case)
+        except Exception as exc:
+            rec.violation("loadable/second-load-by-the-same-reader-raised-%s" % type(exc).__name__, "%s: %r" % (fmt, str(exc)[:200]), case)
         # ---- content
         rec.monitor("content")
         for item in content_diffs(exp, alts, loaded, rec):
